@@ -3,9 +3,52 @@
 #include "replay_util.h"
 using namespace MEDDLY;
 static long dec(int h) { terminal t(terminal_type::INTEGER, h); return t.getInteger(); }
+// ---- EV+ shortcuts with non-terminal operands: op(A, B) at a point must equal op(const A(point), const B(point)) ----
+struct pval { bool inf; long v; };
+static void evp_build(forest* f, int node, long v, long d, bool di, int var, dd_edge &e, pval &at1)
+{   // node -1: constant v; 0: infinity; > 0: v + g(x_var) with g(0) = 0, g(1) = d (or infinity)
+    minterm_coll mtl(4, f);
+    for (int x1 = 0; x1 < 2; x1++) for (int x2 = 0; x2 < 2; x2++) {
+        minterm &m = mtl.unused(); m.setVar(1, x1); m.setVar(2, x2);
+        int x = (var == 1) ? x1 : x2;
+        pval p; if (node == 0) { p.inf = true; p.v = 0; } else if (node < 0) { p.inf = false; p.v = v; } else if (x == 0) { p.inf = false; p.v = v; } else { p.inf = di; p.v = v + d; }
+        if (x1 == 1 && x2 == 1) at1 = p;
+        if (p.inf) m.setValue(rangeval(range_special::PLUS_INFINITY, range_type::INTEGER)); else m.setValue(rangeval(p.v));
+        mtl.pushUnused();
+    }
+    mtl.buildFunctionMin(rangeval(range_special::PLUS_INFINITY, range_type::INTEGER), e);
+}
+static std::string evp_at(dd_edge &e, forest* f, int x1, int x2)
+{
+    minterm m(f); m.setVar(1, x1); m.setVar(2, x2); rangeval v; e.evaluate(m, v);
+    return v.isPlusInfinity() ? std::string("infinity") : std::to_string(long(v));
+}
+static int replay_evplus_pw(replay_args &a)
+{
+    std::string op = a.job.substr(7, a.job.find('_', 7) - 7);     // evplus_<op>_shortcuts_pw
+    binary_builtin0 which = op == "mult" ? MULTIPLY : op == "div" ? DIVIDE : op == "mod" ? MODULO : nullptr;
+    if (!which) { printf("unknown operation %s\n", op.c_str()); return 2; }
+    initialize();
+    int bounds[] = {2, 2};
+    domain* d = domain::createBottomUp(bounds, 2);
+    policies p; p.useDefaults(SET); p.setFullyReduced();
+    forest* f = forest::create(d, SET, range_type::INTEGER, edge_labeling::EVPLUS, p);
+    dd_edge A(f), B(f), C(f), PA(f), PB(f), PC(f); pval pa, pb, dummy;
+    evp_build(f, (int)a.i("w_ap"), a.i("w_av"), a.i("w_da"), a.i("w_dai") != 0, 1, A, pa);
+    evp_build(f, (int)a.i("w_bp"), a.i("w_bv"), a.i("w_db"), a.i("w_dbi") != 0, 2, B, pb);
+    evp_build(f, pa.inf ? 0 : -1, pa.v, 0, false, 1, PA, dummy);          // the constants A(1,1) and B(1,1)
+    evp_build(f, pb.inf ? 0 : -1, pb.v, 0, false, 2, PB, dummy);
+    std::string got, want;
+    try { apply(which, A, B, C); got = evp_at(C, f, 1, 1); } catch (error e) { got = std::string("error ") + e.getName(); }
+    try { apply(which, PA, PB, PC); want = evp_at(PC, f, 1, 1); } catch (error e) { want = std::string("error ") + e.getName(); }
+    printf("%s at (1,1): A=%s B=%s: functions give %s, the constants A(1,1) and B(1,1) give %s\n", op.c_str(), evp_at(A, f, 1, 1).c_str(), evp_at(B, f, 1, 1).c_str(), got.c_str(), want.c_str());
+    REPRO(got != want, "the result at an assignment depends on how the operands are represented: %s vs %s", got.c_str(), want.c_str());
+    NOREPRO();
+}
 int main(int argc, char** argv)
 {
     replay_args a(argc, argv);
+    if (a.job.compare(0, 7, "evplus_") == 0) return replay_evplus_pw(a);
     int ha = (int)a.i("w_a"), hb = (int)a.i("w_b");
     long av = dec(ha), bv = dec(hb);
     std::string op = a.job.substr(3, a.job.find('_', 3) - 3);     // mt_<op>_kernel / mt_<op>_shortcuts
